@@ -242,6 +242,7 @@ def run_case(case, wd, max_points=None, rng=None):
         raise RuntimeError(f"base run failed: {res}")
     base_bus = read_bus(base + "/bus.jsonl")
     _, base_disk, base_files = load_caches(base, case)
+    base_mem = dec(res["mem"])
 
     def interrupted(run, kill_at):
         def fn():
@@ -291,7 +292,7 @@ def run_case(case, wd, max_points=None, rng=None):
         out.append(ob)
         H.rmtree(run)
     H.rmtree(wd)
-    return {"base_disk": base_disk, "base_files": base_files, "view_b2": view_b2, "n_ops": n_ops, "ops": ops,
+    return {"base_disk": base_disk, "base_mem": base_mem, "base_files": base_files, "view_b2": view_b2, "n_ops": n_ops, "ops": ops,
             "points": out}
 
 
